@@ -255,6 +255,9 @@ def _first_ifexp(e, bool_calls=()):
         n = stack.pop(0)
         if isinstance(n, ast.IfExp):
             return n
+        if isinstance(n, ast.Subscript) and isinstance(n.value, ast.Tuple) and len(n.value.elts) == 2 and _is_boolish(n.slice, bool_calls) \
+                and not isinstance(n.slice, ast.Constant):
+            return n        # (a, b)[cond]
         if isinstance(n, ast.Call) and isinstance(n.func, ast.Name) and n.func.id in ("int", "bool") and len(n.args) == 1 and not n.keywords \
                 and _is_boolish(n.args[0], bool_calls) and not isinstance(n.args[0], ast.Constant):
             return n
@@ -318,7 +321,8 @@ class Summariser(object):
                 out.append((q, x))
                 continue
             is_conv = isinstance(ie, ast.Call)
-            test = ie.args[0] if is_conv else ie.test
+            is_tab = isinstance(ie, ast.Subscript)
+            test = ie.args[0] if is_conv else (ie.slice if is_tab else ie.test)
             for truth in (True, False):
                 for case in dnf(test, truth):
                     q2 = q.fork()
@@ -330,6 +334,8 @@ class Summariser(object):
                     ie2 = _first_ifexp(x2, self.bool_calls)
                     if is_conv:
                         b2 = ast.Constant(value=(1 if truth else 0) if ie.func.id == "int" else truth)
+                    elif is_tab:
+                        b2 = ie2.value.elts[1 if truth else 0]
                     else:
                         b2 = ie2.body if truth else ie2.orelse
                     x2 = b2 if ie2 is x2 else _replace(x2, ie2, b2)
@@ -823,10 +829,23 @@ def norm(text):
     return "".join(text.split()).replace("(", "").replace(")", "")
 
 
+def arith_text(e):
+    """Polynomial normal form of an arithmetic expression (so a*(b+c) and b*a + a*c read the same); other
+    expressions as they are."""
+    e = simplify(e)
+    if isinstance(e, (ast.BinOp, ast.UnaryOp)) and not (isinstance(e, ast.UnaryOp) and isinstance(e.op, ast.Not)):
+        from .linform import poly, show
+        try:
+            return show(poly(e))
+        except Exception:
+            pass
+    return src(e)
+
+
 def result_text(p):
     k, e = p.result
     if k == "return":
-        return "return " + src(simplify(e))
+        return "return " + arith_text(e)
     if k == "raise":
         return "raise " + (src(e.func) if isinstance(e, ast.Call) else (src(e) if e is not None else ""))
     return k
@@ -964,7 +983,7 @@ def outcome_with(stores=None, calls=None, result=True):
         parts = []
         for k, t, e in p.effects:
             if k == "store" and stores is not None and stores(t):
-                parts.append("%s = %s" % (t, src(simplify(e))))
+                parts.append("%s = %s" % (t, arith_text(e)))
             elif k == "call" and calls is not None and calls(t):
                 parts.append(src(e))
         if result:
